@@ -187,6 +187,35 @@ impl Value {
         Value::new(&Coin::zero())
     }
 
+    /// True when the multiasset holds an asset with quantity zero or a policy without assets: entries that stand for
+    /// nothing and that the ledger does not admit in a transaction output
+    pub(crate) fn has_empty_entries(&self) -> bool {
+        self.multiasset.as_ref().map_or(false, |ma| {
+            ma.0.iter()
+                .any(|(_, assets)| assets.0.is_empty() || assets.0.values().any(|quantity| quantity.is_zero()))
+        })
+    }
+
+    /// The same value without zero quantities and without policies that hold no asset
+    pub(crate) fn without_empty_entries(&self) -> Value {
+        let multiasset = self.multiasset.as_ref().map(|ma| {
+            let mut kept_policies = MultiAsset::new();
+            for (policy, assets) in &ma.0 {
+                let mut kept = Assets::new();
+                for (name, quantity) in &assets.0 {
+                    if !quantity.is_zero() {
+                        kept.insert(name, quantity);
+                    }
+                }
+                if kept.len() > 0 {
+                    kept_policies.insert(policy, &kept);
+                }
+            }
+            kept_policies
+        });
+        Value { coin: self.coin.clone(), multiasset }
+    }
+
     pub fn is_zero(&self) -> bool {
         self.coin.is_zero()
             && self
